@@ -107,6 +107,15 @@ func checkC10(c *Ctx) error {
 			_ = os.MkdirAll(filepath.Join(d, "conf/prod"), 0o755)
 			return []string{"conf/*"}
 		}, expectOK: always(false)},
+		// big inputs: 9 MiB of comments in front of what matters (a defect; valid definitions)
+		{name: "huge-input-with-defect-at-the-end", prepare: func(d string) []string {
+			write(filepath.Join(d, "a.yaml"), strings.Repeat("# "+strings.Repeat("padding ", 15)+"\n", 75000)+inject([]string{"token", "grammar", "cycle-svc", "cycle-param"}[r.Intn(4)]))
+			return []string{"a.yaml"}
+		}, expectOK: always(false)},
+		{name: "huge-input-unparsable-at-the-end", prepare: func(d string) []string {
+			write(filepath.Join(d, "a.yaml"), "parameters:\n  a: 1\n"+strings.Repeat("# "+strings.Repeat("padding ", 15)+"\n", 75000)+"services:\n  s: [unclosed\n")
+			return []string{"a.yaml"}
+		}, expectOK: always(false)},
 		{name: "input-missing", prepare: func(d string) []string { return []string{"missing.yaml"} }, expectOK: always(false)},
 		{name: "unparsable-yaml", prepare: func(d string) []string {
 			write(filepath.Join(d, "a.yaml"), "services:\n  a: [unclosed\n")
